@@ -86,7 +86,7 @@ func par2Cycle(r *Run, o cycleOpts) {
 			if v.Err != nil {
 				r.Violate("verify-error-on-clean-set", "Verify failed on an untouched set: %v", v.Err)
 			}
-			r.oracleVerify2(w, v, tr, true)
+			r.oracleVerify2(w, v, tr, true, true)
 			if v.HasRes && v.Counts.RepairNeeded() {
 				r.Violate("usable-below-lower", "Verify of an untouched set reports %d unusable slices", v.Counts.UnusableDataShardCount)
 			}
@@ -135,7 +135,7 @@ func par2Cycle(r *Run, o cycleOpts) {
 	v := r.Verify2(w, w.Index, gv, nil, SchedSpec{})
 	r.noPanic(v)
 	if prop == "C03" {
-		r.oracleVerify2(w, v, tr, hostile == "")
+		r.oracleVerify2(w, v, tr, hostile == "", true)
 		if v.Err != nil && hostile == "" {
 			r.Violate("verify-error", "Verify failed although index and recovery files are undamaged: %v", v.Err)
 		}
@@ -179,7 +179,7 @@ func par2Cycle(r *Run, o cycleOpts) {
 		v2 := r.Verify2(w, w.Index, gv, nil, SchedSpec{})
 		r.noPanic(v2)
 		if prop == "C03" {
-			r.oracleVerify2(w, v2, tr2, hostile == "")
+			r.oracleVerify2(w, v2, tr2, hostile == "", true)
 		}
 		if prop == "C02" {
 			r.oracleWrites(w, v2, "verify")
